@@ -819,7 +819,7 @@ type checker struct {
 }
 
 type stats struct {
-	cur     int  // reader being run (for the panic report)
+	cur     int // reader being run (for the panic report)
 	curP    byte
 	evals   int
 	accepts []int64
@@ -1038,7 +1038,7 @@ func intContents() [][]byte {
 	add([]byte{})
 	add([]byte{0x00, 0x00, 0x00})
 	add([]byte{0xff, 0xff, 0xff})
-	add(append([]byte{0x01}, make([]byte, 8)...))  // 2^64
+	add(append([]byte{0x01}, make([]byte, 8)...)) // 2^64
 	add(append([]byte{0x00, 0xff}, make([]byte, 7)...))
 	add(append([]byte{0x7f}, bytes.Repeat([]byte{0xff}, 19)...))
 	return out
